@@ -273,6 +273,7 @@ def _predict(lw, pre, wells, volumes, sign):
         return "unknown", None, None
     if math.isnan(mxf) or math.isnan(mnf):
         return "unknown", None, None
+    soft = False
     for k, (well, vf) in enumerate(zip(w, vf_list)):
         idx = real_index(lw, well)
         if idx is None:
@@ -296,15 +297,20 @@ def _predict(lw, pre, wells, volumes, sign):
             band = Fraction(1e-9) * max(abs(fr(mnf)), abs(new), abs(exp[idx]), 1)
         if float_exact:
             if margin > 0:
-                return "limit", k, exp
+                return ("either" if soft else "limit"), k, exp
         else:
             if margin > band:
-                return "limit", k, exp
+                return ("either" if soft else "limit"), k, exp
             if margin >= -band:
-                return "either", k, exp
+                # inside the either-band with inexact float arithmetic: both outcomes are legitimate.
+                # Follow the float simulation; from here on nothing strict is demanded any more.
+                rejected = (fsim > mxf) if sign > 0 else (fsim < mnf)
+                if rejected:
+                    return "either", k, exp
+                soft = True
         exp[idx] = new
         sim[idx] = fsim
-    return "ok", None, exp
+    return ("ok_soft" if soft else "ok"), None, exp
 
 
 def _attach_labware(att: Attachment):
@@ -425,13 +431,17 @@ def _attach_labware(att: Attachment):
             A.hv("reject_when_beyond_limit", exc is not None, det)
             if exc is not None:
                 A.hv("limit_exception_type", isinstance(exc, want), det)
+        elif status == "ok_soft":
+            if exc is None:
+                ok = all(near(post[r, c], e, scale=max(abs(float(e)), abs(pre[r, c]))) for (r, c), e in exp.items())
+                A.hv("ledger_exact", ok, det)
         elif status == "either":
             A.count_either = getattr(A, "count_either", 0) + 1
             if exc is not None:
                 A.hv("limit_exception_type", isinstance(exc, want) or not is_vv, det)
         elif status == "badarg":
             A.hv("reject_bad_argument", exc is not None, det)
-        if exc is not None and status in ("limit", "either") and exp is not None and k is not None:
+        if exc is not None and status == "limit" and exp is not None and k is not None:
             # the offending well is unchanged w.r.t. the state after the accepted prefix, and the
             # whole state is either "nothing applied" or "the prefix applied" (both legitimate)
             idx = real_index(lw, flat_f(wells)[k])
